@@ -367,6 +367,12 @@ class Report:
         os.makedirs(evdir, exist_ok=True)
         with open(os.path.join(evdir, self.prop + '.json'), 'w') as fh:
             json.dump(ev, fh, indent=1, sort_keys=True)
+        if REPO == '/repo' and self.tier == 'thorough':
+            # evidence/<id>.json is rewritten by every run; the last thorough run is kept as well
+            tdir = os.path.join(VERIF, 'evidence-thorough')
+            os.makedirs(tdir, exist_ok=True)
+            with open(os.path.join(tdir, self.prop + '.json'), 'w') as fh:
+                json.dump(ev, fh, indent=1, sort_keys=True)
         return rc
 
 
